@@ -68,7 +68,7 @@ var specC08 = reg(&checkSpec{
 
 var specC11 = reg(&checkSpec{
 	prop: "C11", profiles: []string{"member", "member", "transfer"},
-	deciding: []string{"nonvoter-authority"},
+	deciding: []string{"nonvoter-authority", "durable-majority"},
 	rule:     "non-trivial: a node that is a non-voter (or not a member) in its own latest configuration had its election timer fire or received a timeout-now request, or a promotion was appended; distinct by trace hash",
 	nontrivial: func(c *cluster) bool {
 		return c.stats.has("nonvoter-timeout") || c.stats.has("wire-timeoutNowResp-nonVoter") || c.stats.has("promotion")
@@ -92,7 +92,8 @@ var specC15 = reg(&checkSpec{
 
 var specC16 = reg(&checkSpec{
 	prop: "C16", profiles: []string{"transfer"},
-	deciding: []string{"transfer", "leader-unique"},
+	deciding: []string{"transfer", "leader-unique", "converge"},
+	closing:  true,
 	rule:     "non-trivial: a transfer was accepted (timeout-now written or transfer task pending) while updates, a membership action or a competing election were in flight, or its reply/vote traffic was withheld; distinct by trace hash",
 	nontrivial: func(c *cluster) bool { return c.stats.has("wire-timeoutNow") && (c.stats.has("xfer-err") || c.stats.has("xfer-ok")) },
 })
